@@ -38,7 +38,7 @@ type procRoles struct {
 	problems  []string
 }
 
-func (w *World) findProcRoles() *procRoles {
+func (w *World) findProcRolesUncached() *procRoles {
 	pr := &procRoles{w: w, procT: w.Named("actor", "process"), ctxT: w.Named("actor", "Context")}
 	bad := func(f string, a ...any) { pr.problems = append(pr.problems, fmt.Sprintf(f, a...)) }
 	if pr.procT == nil || pr.ctxT == nil {
@@ -970,6 +970,12 @@ func checkC07(w *World, r *Report) {
 			"a path for a registered PID does not enqueue the pill: the returned context never becomes done")
 	}
 
+	if spp != nil {
+		why := "Stop must be immediate and Poison graceful, both for the PID the caller gave."
+		w.checkRow(r, row{rule: "C07.R1", fn: w.Method("actor", "Engine", "Stop"), callee: EvCall("spp", spp), name: "sendPoisonPill", args: []string{"P0", "call:context.Background()", "K:false", "P1"}, why: why})
+		w.checkRow(r, row{rule: "C07.R1", fn: w.Method("actor", "Engine", "Poison"), callee: EvCall("spp", spp), name: "sendPoisonPill", args: []string{"P0", "call:context.Background()", "K:true", "P1"}, why: why})
+		w.checkRow(r, row{rule: "C07.R1", fn: w.Method("actor", "Engine", "PoisonCtx"), callee: EvCall("spp", spp), name: "sendPoisonPill", args: []string{"P0", "P1", "K:true", "P2"}, why: why})
+	}
 	// R2
 	pr.lta.export(r, "C07.R2", []string{"cancel-before-stopped", "restart-buffer-dropped"},"the stop context is cancelled only after the inbox stopped, the actor was unregistered and handled Stopped")
 	{
